@@ -32,7 +32,7 @@ CHECKS = {
 
 CHECKS.update({
  "C04": dict(engine="E1 detsched", technique=SCHED + "; self-checking payload as oracle", design="§4 C04",
-   text="The payload's Clone and every view closure contain a scheduling point, so a clone/view can be suspended for arbitrarily long while producers wrap the ring; the payload checks itself (well-formed, live, unchanged) at both ends of every observation."),
+   text="The payload's Clone and every view closure contain a scheduling point, so a clone/view can be suspended for arbitrarily long while producers wrap the ring; two payload types (with and without a destructor, the latter in a second harness binary); the payload checks itself (well-formed, live, unchanged) at both ends of every observation."),
  "C06": dict(engine="E1 detsched", technique=SCHED + "; quiescent probes compared with the reference model", design="§4 C06",
    text="Concurrent phases that stop without draining, followed by single-threaded fill/drain/refill/drain probes compared with the model computed from the recorded history."),
  "C10": dict(engine="E1 detsched", technique=SCHED, design="§4 C10",
@@ -46,7 +46,7 @@ CHECKS.update({
  "C17": dict(engine="E3 memacct", technique="property-based testing with a counting global allocator as oracle (generated teardown histories and churn loops)", design="§4 C17",
    text="Bytes attributed to the queue must return to the baseline after every generated teardown, and must plateau across 2c..4c generated churn cycles."),
  "C18": dict(engine="E1 detsched", technique=SCHED + "; solo-run step bound", design="§4 C18",
-   text="At generated points all other threads are frozen wherever they are and one try operation runs alone; it must return within a fixed number of its own steps and never block. In addition every try operation of every generated execution may execute at most that many scheduling points in a row without another thread changing shared state."),
+   text="At generated points all other threads are frozen wherever they are and one try operation runs alone; it must return within a fixed number of its own steps and never block. In addition every try operation of every generated execution may execute at most that many scheduling points in a row without another thread changing shared state, and a freeze sweep suspends, for each generated scenario, every thread for good at each of its first 400 scheduling points in turn while the others run on."),
  "C19": dict(engine="E5 typeprobe", technique="generated compile probes: one rustc program per (handle type x payload class x closure class x trait), exhaustive over the finite table", design="§4 C19",
    text="The compiler decides each cell of the Send/Sync table; the expected table is derived from the statement only.",
    note="trusted base: rustc's auto-trait checking; one representative type per payload/closure class"),
